@@ -2,8 +2,8 @@
 (* G for C44: every text of <= N symbols over {a, b, A, CR, LF, nop} with everything the
    specification prescribes about it, printed as one JSON object per text:
      sym    the symbols                  off[k+1]  byte offset of boundary k of the expanded text
-     pos[k+1] = <<l, c>> reference position of boundary k;  mid[k+1]  k is inside a CR LF pair
-              (then <<l + 1, 0>> is accepted as well)
+     pos[k+1] = <<l, c>> the position index -> position must report for boundary k (IdxPosT);
+     mid[k+1]  k is inside a CR LF pair (its position is that of the next line start)
      grid   every position <<l, c>> with l <= lines + 1, c <= longest line + 1:
               [l, c, k, w, crlf]   k = the boundary the conversion must return (-1: Unspecified),
                                w = the command whose documentation a hover there must show on an
@@ -35,7 +35,7 @@ GridSound == ph = 1 => \A i \in 1..Len(GridSeq) :
 Emit == ph = 0 \/
         PrintT(ToJson([sym |-> sym,
                        off |-> [k \in 1..(Len(Text) + 1) |-> Off(Text, k - 1)],
-                       pos |-> tab,
+                       pos |-> [k \in 1..(Len(Text) + 1) |-> IdxPosT(Text, tab, k - 1)],
                        mid |-> [k \in 1..(Len(Text) + 1) |-> MidCRLF(Text, k - 1)],
                        grid |-> GridSeq]))
 =============================================================================
